@@ -118,3 +118,33 @@ Example C01_nonvacuous_fit :
   2 + len (enc it) <= len buf /\ w_at buf 2 it = Ok ([9; 9; 255; 255; 255; 254; 9], 4) /\
   r_item KI32 (enc it ++ [7]) = Ok (it, 4).
 Proof. cbv zeta. split; [vm_compute; discriminate|]. split; reflexivity. Qed.
+
+(* ---- the stream theorems closed (coordinator, after merging C04/C05): the two contracts are
+        discharged in Proofs/StreamInst.v by the buffered reader's invariant lemmas (C04) and the
+        buffered writer's simulation (C05).  Stream reader: EVERY source (data, final error, error
+        with/after the last bytes, fragmentation script incl. 1-byte, short and empty reads) whose
+        script cannot stall (no run of maxConsecutiveEmptyReads empty reads); stream writer: after
+        EVERY history on every kind of writer. ---- *)
+From GV Require Import Spec.Cursor Proofs.BufWriterRef Proofs.BufReaderP Proofs.StreamInst.
+
+Theorem C01_sr_enc_closed : forall s it rest,
+  spos s = 0 -> may_stall (schunks s) = false -> sdata s = enc it ++ rest -> item_ok it = true ->
+  exists st', sr_item (kind_of it) (new_reader s) = (st', Ok it) /\ r_readlen st' = len (enc it).
+Proof. exact sr_enc_closed. Qed.
+
+Theorem C01_sw_eq_enc_closed : forall dirty w0 l0 h it,
+  init_pair w0 l0 ->
+  let st := fst (wrun dirty w0 h) in let s := fst (log_run l0 h) in
+  lerr s = None -> (lfake s = true \/ lcalls s + 1 <> lfail s) ->
+  exists st1, bw_item dirty st it = Ok (st1, E_NONE) /\
+              written_len st1 = written_len st + len (enc it) /\
+              exists B, matches (lL s) B /\
+                        o_sink (snd (wstep dirty st1 OFlush)) = Some (B ++ enc it) /\
+                        o_err (snd (wstep dirty st1 OFlush)) = E_NONE.
+Proof. exact sw_eq_enc_closed. Qed.
+
+Theorem C01_reader_contract_holds : reader_contract At.
+Proof. exact reader_contract_holds. Qed.
+
+Theorem C01_writer_contract_holds : writer_contract Sim.
+Proof. exact writer_contract_holds. Qed.
